@@ -40,7 +40,7 @@ def schedules(H, rng, n_random):
             continue
         out.append((nm + '-KA', [(g, 'KA')] * 3))
         out.append((nm + '-UPD', [(g, 'UPD')] * 3))
-        out.append((nm + '-alt', [(g, 'KA'), (g, 'UPD'), (g, 'UPDBAD'), (g, 'UPDUNK'), (g, 'UPDOVR'), (g, 'KA')]))
+        out.append((nm + '-alt', [(g, 'KA'), (g, 'UPD'), (g, 'UPDBAD'), (g, 'UPDUNK'), (g, 'UPDOVR'), (g, 'UPDLSU'), (g, 'KA')]))
         out.append((nm + '-UPDUNK', [(g, 'UPDUNK')] * 3))
     out.append(('burst', [(0.0, 'KA')] * 4 + [(0.0, 'UPD')] * 4 + [(H - e, 'KA')]))
     out.append(('long-run', [(H / 2.0, 'KA' if i % 2 else 'UPD') for i in range(200)]))
@@ -116,7 +116,7 @@ def run_case(cfg_hold, prop_hold, sched, order, phase='established', ka_delay=0.
             m_, p_, b_ = S.REST_SENDS[dict(REST='R_UPD', RESTRR='R_RR', RESTBIN='R_BIN')[kind]]
             w.rest(m_, p_, json_body=b_)
             continue
-        data = dict(KA=KEEPALIVE, UPD=S.UPD_EMPTY, UPDBAD=UPD_BAD, UPDUNK=S.UPD_UNKFAM, UPDOVR=S.MSGS['UPD_wdoverrun'][0], RR=S.MSGS['RR'][0])[kind]
+        data = dict(KA=KEEPALIVE, UPD=S.UPD_EMPTY, UPDBAD=UPD_BAD, UPDUNK=S.UPD_UNKFAM, UPDOVR=S.MSGS['UPD_wdoverrun'][0], UPDLSU=S.MSGS['UPD_lsunreach'][0], RR=S.MSGS['RR'][0])[kind]
         w.deliver(data, tr)
         arrivals += 1
         if H:
